@@ -40,6 +40,15 @@ REQ: ContextVar[Optional[str]] = ContextVar("sim_request_id", default=None)
 CER: ContextVar[Optional[dict]] = ContextVar("sim_content_evaluation_result", default=None)
 
 
+TIME_UNIT = 0.001
+"""
+one latency / start / fault-time unit of a scenario in virtual seconds. The properties quantify over completion
+*orders*, not durations: latencies are kept in the millisecond-to-seconds range (the straggler profile's 10 000 units
+are 10 virtual seconds) so that a code change which adds a generous real-world timeout around user evaluators is not
+flagged merely because a simulated evaluator "took three hours".
+"""
+
+
 class InjectedFault(RuntimeError):
     """raised by a peer on behalf of the fault injector (sibling failure)"""
 
@@ -150,7 +159,7 @@ class Sim:
                     await asyncio.sleep(0)
             elif action[0] == "s":
                 self.yielding_calls += 1
-                await asyncio.sleep(action[1])
+                await asyncio.sleep(action[1] * TIME_UNIT)
             self.check_fault(kind, key)
         finally:
             del self._inflight[seq]
@@ -340,7 +349,7 @@ def run_requests(scenario, do_op, step_cap=200_000):
         CER.set(request.get("cer"))
         try:
             if request.get("start"):
-                await asyncio.sleep(request["start"])
+                await asyncio.sleep(request["start"] * TIME_UNIT)
             sim.event("begin", rid)
             result = await do_op(sim, request)
             outcome = {"ok": canon(result)}
@@ -369,7 +378,7 @@ def run_requests(scenario, do_op, step_cap=200_000):
                         sim.count_fault("F3_sibling_cancel")
                         _task.cancel()
 
-                loop.call_at(float(fault["at"]), cancel)
+                loop.call_at(float(fault["at"]) * TIME_UNIT, cancel)
         await asyncio.gather(*tasks, return_exceptions=True)
         sim.sim_time = loop.time()
         sim.steps = loop.steps
